@@ -123,10 +123,15 @@ class MessagePackDocument(HierDictDocument):
     def _ret(self, _, value):
         return value
 
-    def _ret_number(self, _, value):
+    def _ret_number(self, cls, value):
         if isinstance(value, NON_NUMBER_TYPES):
             raise ValidationError(value)
         if value in (True, False):
+            return int(value)
+        if isinstance(value, float) and issubclass(cls, Integer):
+            # 7.0 is 7, 7.5 is not an integer
+            if not value.is_integer():
+                raise ValidationError(value)
             return int(value)
         return value
 
